@@ -17,3 +17,6 @@ func XVErrorCodes() map[int32]string {
 
 // XVNewError builds an *Error with exactly the given code and text (no cause), without registering it.
 func XVNewError(code int32, msg string) *Error { return &Error{code: code, msg: msg} }
+
+// XVActorRefFactory returns the currently registered ActorRef factory (nil if none).
+func XVActorRefFactory() func(address, path string) (ActorRef, error) { return actorRefFactory }
